@@ -152,6 +152,9 @@ def main():
             ping_story(A, 7)
         if spec.get("dirty"):
             dirty_episode(A, rng, spec["steps"])
+        for _ in range(spec.get("earlier_idle_steps", 0)):     # earlier episodes in which the scripted agents run their course undisturbed
+            if A.step(0)[3]:
+                break
     if other and other["when"] in ("before-measured-reset", "closed-mid-episode"):
         B = make_b()
     obs, _ = A.reset(seed=spec["reset_seed"])
